@@ -99,6 +99,8 @@ def gen_history(rng, nops, acct):
             op = "ru"
         elif k < 0.96 or not acct:
             op = "w" if k < 0.985 else "reset"
+        elif k < 0.975:
+            op = "c"  # residency probe through the public Cache.contains(): not an access
         elif k < 0.985:
             op = "p"  # parser-style preload (direct write to lower memory) in the middle of a history
         else:
@@ -143,6 +145,54 @@ def resident_view(m):
         tags.append(row)
         dirty.append(drow)
     return tags, words, dirty
+
+
+def view_of(cr):
+    """CacheRepr -> per set list of tag|None by way"""
+    return [[int(b.tag, 16) if b.valid_bit == "1" else None for b in s.blocks] for s in cr.sets]
+
+
+class PolicyObserver:
+    """C10 at the set level, driven by observation only: fed the resident tags (public cache representation) before
+    and after each access together with the accessed address, it infers 'hit on way w' or 'fill of way d', tells a
+    per-set reference policy exactly these events, and demands at a fill that d is that policy's victim."""
+
+    def __init__(self, ib, bb, assoc, policy, tags_now):
+        from ..refmodels.policies import make_policy
+
+        self.ib, self.bb, self.policy = ib, bb, policy
+        self.pols = [make_policy(policy, assoc) for _ in range(1 << ib)]
+        self.prev = tags_now
+        self.fills = 0
+
+    def split(self, addr):
+        blk = (addr & M32) >> (2 + self.bb)
+        return blk & ((1 << self.ib) - 1), blk >> self.ib
+
+    def observe(self, tags, addr):
+        """returns None or (kind, message)"""
+        prev, self.prev = self.prev, tags
+        if addr is None:
+            return None
+        idx, tag = self.split(addr)
+        before, after = prev[idx], tags[idx]
+        for sidx in range(len(tags)):
+            if sidx != idx and prev[sidx] != tags[sidx]:
+                return ("foreign-set-changed", "set %d changed although the access maps to set %d" % (sidx, idx))
+        changed = [w for w in range(len(after)) if before[w] != after[w]]
+        pol = self.pols[idx]
+        if not changed:
+            if tag in after:
+                pol.access(after.index(tag))
+            return None
+        if len(changed) == 1 and after[changed[0]] == tag:
+            self.fills += 1
+            d, v = changed[0], pol.victim()
+            if d != v:
+                return ("displaced-way", "the fill displaced way %d (tags %r -> %r), the %s policy's victim for the observed access history of this set is way %d" % (d, before, after, self.policy, v))
+            pol.access(d)
+            return None
+        return ("anomalous-set-update", "set %d changed from %r to %r" % (idx, before, after))
 
 
 class HistMonitor:
@@ -201,8 +251,8 @@ class HistMonitor:
         if self.pols is not None and not self._events_done and not (self.dead and self.res.prop == "C10"):
             if op == "reset":
                 pass  # policies were re-created right after the reset (before the read-back)
-            elif op == "p":
-                # a preload bypasses the cache: no access event; the tags must not change either
+            elif op in ("p", "c"):
+                # a preload bypasses the cache / a residency probe is not an access: no event; tags must not change
                 prev = self.tags_prev
                 self.policy_events("preload", None)
                 if prev is not None and prev != self.tags_prev:
@@ -237,6 +287,23 @@ class HistMonitor:
                     self.fail("C03", "reset-keeps-blocks", "%s: a block is still valid after reset()" % where)
                 return
             self.readback(where)
+            return
+        if op == "c":
+            from architecture_simulator.uarch.memory.decoded_address import DecodedAddress
+
+            _t, words_, _d = resident_view(m)
+            try:
+                got = bool(m.cache.contains(DecodedAddress(self.cfg["ib"], self.cfg["bb"], a)))
+            except Exception as e:
+                self.fail("C10", "contains-error", "%s: Cache.contains raised %r" % (where, e), fatal=False)
+                return
+            res.count("contains_probes")
+            base = self.ref.block_base(a)
+            want = any((base + 4 * k_) in words_ for k_ in range(1 << self.cfg["bb"]))
+            if got != want:
+                self.fail("C10", "contains-wrong", "%s: Cache.contains() = %r, the cache representation shows the block %s" % (where, got, "resident" if want else "absent"), fatal=False)
+            if self.acct:
+                self.counters(where)  # a probe is not an access: counters unchanged
             return
         if op == "p":
             # "bypass caches and statistics and directly write to lower memory": neither counters nor the
